@@ -12,6 +12,9 @@ def jobs(tier):
     ]
     q.append(dict(name='n3e3-pairs', harness=H, entry='main_c19', defines=dict(NN=3, NE=3, TP_HI=0, SP_HI=0, NSEL=2, FIXED_FILTERS=1),
                   timeout=900, require_tags={'end': 1, 'accept': 1, 'has-segments': 1}))
+    q.append(dict(name='n3e2-all-samples-default', harness=H, entry='main_c19',
+                  defines=dict(NN=3, NE=2, TP_HI=0, SP_LO=1, SP_HI=2, ALL_SAMPLES=1, SAMPLE_FLAG_EXTRA=1048576, FIXED_FILTERS=1, STORE_CHOICE=1), timeout=900,
+                  require_tags={'end': 1, 'accept': 1, 'has-segments': 1}))
     q.append(dict(name='kernel-pair-key', harness='k_kernels.c', entry='main_kernel', defines=dict(KERNEL=1), timeout=600,
                   env=dict(LLSYM_Z3_TIMEOUT_MS='5000', LLSYM_CVC5_TIMEOUT_MS='120000'), require_tags={'end': 1, 'pair': 1, 'oob': 1}))
     q.append(dict(name='kernel-avl-4keys', harness='k_kernels.c', entry='main_kernel', defines=dict(KERNEL=4, NK=4), timeout=600,
@@ -33,7 +36,7 @@ def jobs(tier):
 
 
 BOUNDS = {
-    'quick': 'pair-key kernel: num_nodes, a, b free 32-bit values (every table size below 2^31); AVL kernel: 4 inserts of free 64-bit keys (duplicates included) plus a free probe key, and 6 inserts of distinct free keys (every insertion order, all four rotation cases); every valid 3-node 2-edge tree sequence class (edge coordinates symbolic; adjacent edges with equal parent/child, '
+    'quick': 'within=None (all samples, sample flags carrying another bit) under the three store options (pairs+segments, pairs only, totals only) on every 3-node 2-edge class; pair-key kernel: num_nodes, a, b free 32-bit values (every table size below 2^31); AVL kernel: 4 inserts of free 64-bit keys (duplicates included) plus a free probe key, and 6 inserts of distinct free keys (every insertion order, all four rotation cases); every valid 3-node 2-edge tree sequence class (edge coordinates symbolic; adjacent edges with equal parent/child, '
              'gaps, unary nodes arise) x every ordered pair of distinct nodes (samples or not, ancestor/descendant pairs '
              'included), within and between, min_span in {0,1,2}, max_time in {0.5,1.5,2.5,inf}; 3-node 3-edge classes (unsquashed adjacent edges plus a sibling) without filters; one fixed 4-node 4-edge 5-tree '
              'sequence x every ordered triple of nodes; store_pairs+store_segments',
